@@ -948,10 +948,11 @@ Qed.
 
 Lemma SI_iteration s beh cnt : SI s -> SI (fst (fst (iteration true s beh cnt))).
 Proof.
-  intros H. unfold iteration.
-  assert (H0 : SI (set_done s [])) by (eapply SI_same; [| |exact H]; reflexivity).
-  pose proof (SI_work_done (done s) _ beh cnt H0) as X.
-  destruct (work_done true (done s) (set_done s []) beh cnt) as [[s1 e1] n1]. cbn [fst] in X.
+  intros H. unfold iteration. cbv zeta.
+  set (s0 := set_now s (clock s)).
+  assert (H0 : SI (set_done s0 [])) by (eapply SI_same; [| |exact H]; reflexivity).
+  pose proof (SI_work_done (done s0) _ beh cnt H0) as X.
+  destruct (work_done true (done s0) (set_done s0 []) beh cnt) as [[s1 e1] n1]. cbn [fst] in X.
   assert (H1 : SI (set_closingq s1 [])) by (eapply SI_same; [| |exact X]; reflexivity).
   pose proof (SI_run_closing (closingq s1) _ beh n1 H1) as Y.
   destruct (run_closing (closingq s1) (set_closingq s1 []) beh n1) as [[s2 e2] n2]. cbn [fst] in *.
